@@ -199,7 +199,7 @@ func nontrivChain(ch []*AFeat) bool {
 // featCase builds a (valid) abstract schema both ways and checks every node.
 func featCase(c *C, a *AFile) {
 	p := a.toProto()
-	in := replayIn{Kind: "aschema", FDP: mustJSON(a), Note: "features"}
+	in := lazyA{a: a, note: "features"}
 	defer c.Recover("C38 schema", in, "")
 	reg := &protoregistry.Files{}
 	fdP, err, pn := newFile(p, depResolver{reg}, false)
